@@ -25,6 +25,13 @@ Plan families (n = 2 teams, r rounds = r days, except the last):
                 count = (r-hmax)+ + (hmin-r)+ + (r-amax)+ + (amin-r)+
                         + (r-1)*sepmin + (r-1)+
   all byes    : n teams, D days:  n*D + n(n-1)/2 * rounds
+  cyclic host : n >= 3 teams, D days, every team hosts its cyclic successor
+                on every day (nobody travels):
+                count = n*D                      (rule 1, every game)
+                      + n*(D-hmax)+ + n*(hmin-D)+ (rules 4 and 3)
+                      + n*(D-1)*sepmin            (rule 7, distance 0)
+                      + n*(D-rounds) + (n(n-1)/2 - n)*rounds   (rule 10)
+                      + n*(D-1)+                  (rule 9: |D - 0| - 1)
 """
 from __future__ import annotations
 
@@ -384,6 +391,68 @@ def check(ctx: Ctx) -> None:
                     witness = (f"{n_} teams, {r_} round(s): the plan "
                                f"without any game counts {cnt} errors, "
                                f"upper_bound() is {u}")
+        # cyclic hosts: the extreme admissible settings of the limits
+        for n_ in (3, 4, 6, 8):
+            for r_ in (1, 2, 3):
+                days = (n_ - 1) * r_
+                for hi_h in (False, True):
+                    for hi_s in (0, 1, 2, 3, 4, 5):
+                        v = {"n_cities": n_, "rounds": r_}
+                        okv = True
+                        for f, hi in (("home_streak_min", hi_h),
+                                      ("away_streak_min", False)):
+                            x = _num(rng[f][1 if hi else 0], v)
+                            if x is None:
+                                okv = False
+                                break
+                            v[f] = x
+                        # separation_min: lowest, 1, 2, highest; and
+                        # separation_max: lowest (0, 1, 2, 3) / highest
+                        lo_s = _num(rng["separation_min"][0], v) \
+                            if okv else None
+                        hi_sv = _num(rng["separation_min"][1], v) \
+                            if okv else None
+                        if lo_s is None or hi_sv is None:
+                            okv = False
+                        else:
+                            v["separation_min"] = (
+                                lo_s, 1, 2, hi_sv, 1, 2)[hi_s]
+                        for f in ("home_streak_max", "away_streak_max",
+                                  "separation_max"):
+                            x = _num(rng[f][1 if (
+                                f == "separation_max" and hi_s >= 4)
+                                else 0], v) if okv else None
+                            if x is None:
+                                okv = False
+                                break
+                            v[f] = x
+                        if not okv or not all(
+                                (_num(rng[f][0], v) or 0) <= v[f] <= (
+                                    _num(rng[f][1], v) or 0)
+                                for f in FIELDS):
+                            unknown = unknown or not okv
+                            continue
+                        u = _poly_at(ub, v)
+                        if u is None:
+                            unknown = True
+                            continue
+                        cnt = n_ * days + n_ * _pos(
+                            days - v["home_streak_max"]) + n_ * _pos(
+                            v["home_streak_min"] - days) + n_ * (
+                            days - 1) * v["separation_min"] + n_ * (
+                            days - r_) + (n_ * (n_ - 1) // 2 - n_) * r_ \
+                            + n_ * _pos(days - 1)
+                        if cnt > u and witness is None:
+                            witness = (
+                                f"{n_} teams, {r_} round(s) = {days} days, "
+                                f"home streaks {v['home_streak_min']}.."
+                                f"{v['home_streak_max']}, separation "
+                                f"{v['separation_min']}.."
+                                f"{v['separation_max']} (accepted by the "
+                                "Instance constructor), plan: every team "
+                                "hosts its cyclic successor on every day: "
+                                f"rules 1-10 count {cnt} errors, "
+                                f"upper_bound() is {u}")
     if witness is not None:
         ok, why = False, ("a plan scores more errors than the declared "
                           "upper bound: " + witness)
